@@ -17,12 +17,74 @@ def sh(cmd, **kw):
     return subprocess.run(cmd, shell=True, stdout=subprocess.PIPE, stderr=subprocess.STDOUT, text=True, **kw)
 
 
+def run_isolated_seed(sid, checks, tier):
+    """Apply the change in a scratch worktree of /repo and run the checks from a scratch copy of /verif with VERIF_REPO
+    pointing at it: same machinery, nothing shared with /repo or /verif, so several can run at once."""
+    import shutil
+    base = "/tmp/seedrun/%s" % sid
+    wt, vc = base + "/repo", base + "/verif"
+    sh("git -C %s worktree remove --force %s" % (REPO, wt))
+    shutil.rmtree(base, ignore_errors=True)
+    os.makedirs(base)
+    res = {}
+    try:
+        r = sh("git -C %s worktree add -q --detach %s HEAD" % (REPO, wt))
+        assert r.returncode == 0, r.stdout
+        r = sh("git -C %s apply %s" % (wt, os.path.join(VERIF, "seeded", sid, "patch.diff")))
+        if r.returncode != 0:
+            return {"applies": False}
+        sh("rsync -a --exclude .git --exclude .work --exclude replays --exclude seeded --exclude evidence %s/ %s/" % (VERIF, vc))
+        for c in checks:
+            t0 = time.time()
+            p = sh("cd %s && VERIF_REPO=%s ./check %s --tier %s" % (vc, wt, c, tier))
+            viol = [l for l in p.stdout.splitlines() if l.startswith("VIOLATION")]
+            first = ""
+            rp = os.path.join(vc, "replays", "%s-%s-1.replay" % (c, tier))
+            if os.path.exists(rp):
+                first = next((l for l in open(rp, errors="replace") if l.startswith("# case") or l.startswith("# data race") or l.startswith("# proof")), "")[:300].strip()
+            res[c] = {"exit": p.returncode, "violation": [v.replace(vc, VERIF) for v in viol[:1]], "wall_s": round(time.time() - t0, 1), "first": first}
+    finally:
+        sh("git -C %s worktree remove --force %s" % (REPO, wt))
+        shutil.rmtree(base, ignore_errors=True)
+    return res
+
+
+def record(sid, res):
+    d = os.path.join(VERIF, "seeded", sid)
+    meta = json.load(open(os.path.join(d, "meta.json"))) if os.path.exists(os.path.join(d, "meta.json")) else {}
+    meta["detected_by"] = sorted(c for c, v in res.items() if isinstance(v, dict) and v.get("exit") == 1 and v["violation"] and "no-failing-input-found" not in v["violation"][0])
+    meta["proof_or_correspondence_only"] = sorted(c for c, v in res.items() if isinstance(v, dict) and v.get("exit") == 1 and v["violation"] and "no-failing-input-found" in v["violation"][0])
+    meta["last_run"] = res
+    json.dump(meta, open(os.path.join(d, "meta.json"), "w"), indent=1)
+
+
 def main():
     ap = argparse.ArgumentParser()
     ap.add_argument("--only")
     ap.add_argument("--checks")
     ap.add_argument("--tier", default="quick")
+    ap.add_argument("--jobs", type=int, default=0, help="run N seeds at a time, each in its own scratch worktree and scratch copy of /verif")
     a = ap.parse_args()
+    if a.jobs:
+        from concurrent.futures import ThreadPoolExecutor
+        ids = sorted(os.listdir(os.path.join(VERIF, "seeded")))
+        if a.only:
+            ids = [i for i in ids if i in a.only.split(",")]
+        jobs = []
+        for sid in ids:
+            d = os.path.join(VERIF, "seeded", sid)
+            if not os.path.exists(os.path.join(d, "patch.diff")):
+                continue
+            meta = json.load(open(os.path.join(d, "meta.json"))) if os.path.exists(os.path.join(d, "meta.json")) else {}
+            jobs.append((sid, a.checks.split(",") if a.checks else meta.get("checks", [meta.get("property")])))
+        with ThreadPoolExecutor(a.jobs) as ex:
+            futs = {sid: ex.submit(run_isolated_seed, sid, checks, a.tier) for sid, checks in jobs}
+            for sid, f in futs.items():
+                res = f.result()
+                record(sid, res)
+                for c, v in res.items():
+                    print(sid, c, "exit", v.get("exit") if isinstance(v, dict) else v, v.get("violation") if isinstance(v, dict) else "", flush=True)
+        return
     ids = sorted(os.listdir(os.path.join(VERIF, "seeded")))
     if a.only:
         ids = [i for i in ids if i in a.only.split(",")]
